@@ -312,7 +312,7 @@ func init() {
 	reg("fmt.Fprint", func(fr *frame, args []value) value { return fprintTo(fr, args[0], args[1].([]value), false) })
 	reg("fmt.Fprintln", func(fr *frame, args []value) value { return fprintTo(fr, args[0], args[1].([]value), true) })
 	reg("fmt.Fprintf", func(fr *frame, args []value) value {
-		return writeTo(fr, args[0], formatBytes(fr, args[1].(string), args[2].([]value)))
+		return writeTo(fr, args[0], formatAny(fr, args[1], args[2].([]value)))
 	})
 	reg("fmt.Sprintf", func(fr *frame, args []value) value {
 		return fmt.Sprintf(args[0].(string), hostArgs(fr, args[1])...)
